@@ -82,14 +82,27 @@ def run(ctx):
             any(any(M.callee_name(c2).endswith("Event::origin_server_ts") for _, c2 in M.calls(cf["body"])) for cf in w.all_fns()
                 if cf["path"].startswith(SR + "mainline_sort::{closure") and "body" in cf)
     ctx.check(good, "C06.orders", "C06.orders:mainline-key", w.where(f), bad_msg="order_map values are not (depth, timestamp, the element's own id)")
-    sk = [c for _, c in M.calls(body) if M.callee_name(c).endswith("<impl [T]>::sort_by_key") or M.callee_name(c).endswith("sort_by_key")]
+    sk = [c for _, c in M.calls(body) if M.callee_name(c).rsplit("::", 1)[-1] in ("sort_by_key", "sort_by", "sort_unstable_by_key", "sort_unstable_by", "sort_by_cached_key")]
     vty = [t for t in body["locals"] if t.startswith("(usize, core::option::Option<ruma_common::time::MilliSecondsSinceUnixEpoch>, &")]
     ctx.check(len(sk) == 1 and bool(vty), "C06.orders", "C06.orders:mainline-sort", w.where(f), bad_msg="mainline_sort does not sort_by_key on the (usize, Option<ts>, &Id) tuple")
     # the key of every sorted element is that tuple itself: an optional key (`order_map.get(id)` without the unwrap) makes all elements without an
     # entry compare equal, and a stable sort then leaves them in the hash order they arrived in
-    kty = [a for c in sk for a in (c.get("fnargs") or [])[1:2]]
-    ctx.check(len(kty) == 1 and re.match(r"^&?\(usize, core::option::Option<ruma_common::time::MilliSecondsSinceUnixEpoch>, &", kty[0]) is not None,
-              "C06.orders", "C06.orders:mainline-sort:total-key", w.where(f),
+    by_key = [c for c in sk if "key" in M.callee_name(c).rsplit("::", 1)[-1]]
+    kty = [a for c in by_key for a in (c.get("fnargs") or [])[1:2]]
+    total = len(kty) == 1 and re.match(r"^&?\(usize, core::option::Option<ruma_common::time::MilliSecondsSinceUnixEpoch>, &", kty[0]) is not None
+    if len(sk) == 1 and not by_key:
+        # `sort_by(|a, b| key(a).cmp(key(b)))`: the comparator compares the unwrapped order_map tuples of its two arguments, in that order
+        fa = (sk[0].get("fnargs") or [""])[-1]
+        m_ = re.search(r"\{closure@[^:]+:(\d+):\d+", fa)
+        clo = [g for g in w.all_fns() if m_ and g["path"].startswith(SR + "mainline_sort::{closure") and "body" in g and g["span"][1] == int(m_.group(1))
+               and g["body"]["argc"] == 3]
+        if len(clo) == 1:
+            dxc = D.Dex(w.lookup, adt_discr=w.adt_discr, inline=lambda n: "{closure" in n, ctors=w.ctors)
+            rets = [D.show(p_.ret) for p_ in dxc.paths(clo[0], [D.sym("env"), D.sym("a"), D.sym("b")]) if p_.kind == "ret"]
+            mm = re.fullmatch(r"(?:\w+::)*cmp\(HashMap::get\((env\.[\w.]+), a\)\.Some\.0, HashMap::get\((env\.[\w.]+), b\)\.Some\.0\)", rets[0]) if len(rets) == 1 else None
+            total = mm is not None and mm.group(1) == mm.group(2)
+            kty = [rets[0][:120] if rets else "?"]
+    ctx.check(total, "C06.orders", "C06.orders:mainline-sort:total-key", w.where(f),
               bad_msg=f"the sort key of mainline_sort is `{kty[0] if kty else '?'}`, not the (depth, timestamp, id) tuple of the element: elements whose key is absent "
                       f"tie with each other and keep the iteration order of the HashSet they came from")
     # ... and every successful return goes through that sort (the input comes from a HashSet): the only shortcut is the empty input
